@@ -1,14 +1,16 @@
 """C11 (see DESIGN.md)."""
 from . import solvercheck, oracles
 from .p_common import TB, PROFILES
+from . import gridgen
 
 
 def check():
     return solvercheck.run(
         "C11", "C11.v",
         [dict(profile=PROFILES["steps"], n_quick=300, n_thorough=5000),
-         dict(profile=PROFILES["plain"], n_quick=60, n_thorough=1000)],
+         dict(profile=PROFILES["plain"], n_quick=60, n_thorough=1000),
+         dict(builder=gridgen.budget_builder, n_quick=400, n_thorough=4000)],
         [oracles.oracle_C11, oracles.oracle_shapes], TB,
-        "profile 'steps' + plain runs over the 4 explicit methods, both directions; each case replayed bit-for-bit on the "
+        "profile 'steps' + budget sweeps (every max_steps = 1..nstep on runs with rejected attempts) + plain runs over the 4 explicit methods, both directions; each case replayed bit-for-bit on the "
         "extracted model; the property's clauses checked on the implementation's results; non-trivial = at least 2 accepted "
         "steps; distinct = distinct case lines")
